@@ -31,7 +31,7 @@ pub struct Diverged(pub String);
 
 impl Sched {
     pub fn new() -> Arc<Self> {
-        Arc::new(Sched { inner: Mutex::new(Inner::default()), cv: Condvar::new(), timeout: Duration::from_secs(10) })
+        Arc::new(Sched { inner: Mutex::new(Inner::default()), cv: Condvar::new(), timeout: Duration::from_secs(180) })
     }
 
     /// install this scheduler as the controller of the crate's schedule points
